@@ -15,6 +15,7 @@ package main
 import (
 	"bufio"
 	"encoding/hex"
+	"encoding/json"
 	"fmt"
 	"os"
 	"os/exec"
@@ -40,6 +41,10 @@ import (
 )
 
 func init() { register("determinism", domDeterminism) }
+
+// StartBaseBlock of the token feeders of the determinism chain: feeders 1, 2 belong to the two assets
+// (created by NewChain), 3-6 are added to the genesis by runDetSequence
+var detFeederStarts = []uint64{1, 1, 2, 2, 3, 3}
 
 // restartAtWindowEnd as restartEvery: restart right before the last block of every price window
 const restartAtWindowEnd = -1
@@ -106,6 +111,19 @@ func runDetSequence(seed uint64, blocks int, restartEvery int, chainID string) (
 	cfg.NOperators = 3
 	cfg.Powers = []int64{101, 100, 150}
 	cfg.Assets = append(cfg.Assets, AssetSpec{Addr: "0xB8c77482e45F1F44dE1745F52C74426C631bDD52", Decimals: 18, Price: "300", PriceDec: 0})
+	// six token feeders on three start phases (1,1 / 2,2 / 3,3; interval 10, MaxNonce 3): in the EndBlock
+	// that runs out the window of one phase two rounds are sealed together while the others are still
+	// open, so the validators' persisted nonce lists see several removals in SealRound's map order
+	cfg.Mutate = func(c *Chain, gs map[string]json.RawMessage) {
+		var og oracletypes.GenesisState
+		c.App.AppCodec().MustUnmarshalJSON(gs[oracletypes.ModuleName], &og)
+		for i, start := range detFeederStarts[2:] {
+			og.Params.Tokens = append(og.Params.Tokens, &oracletypes.Token{Name: fmt.Sprintf("XT%d", i), ChainID: 1, ContractAddress: "0x", Decimal: 0, Active: true})
+			og.Params.TokenFeeders = append(og.Params.TokenFeeders, &oracletypes.TokenFeeder{
+				TokenID: uint64(len(og.Params.Tokens) - 1), RuleID: 1, StartRoundID: 1, StartBaseBlock: start, Interval: 10})
+		}
+		gs[oracletypes.ModuleName] = c.App.AppCodec().MustMarshalJSON(&og)
+	}
 	c := NewChainFresh(cfg)
 	var trace []string
 	// extra actors: stakers (client-chain addresses) and would-be operators
@@ -145,7 +163,7 @@ func runDetSequence(seed uint64, blocks int, restartEvery int, chainID string) (
 	registered := map[int]bool{}
 	funded := map[int]bool{}
 	oracleNonce := map[string]int32{}
-	lastBased := uint64(0)
+	lastBased := map[string]uint64{}
 	halt := ""
 	for b := 0; b < blocks && halt == ""; b++ {
 		var txLines []string
@@ -209,17 +227,18 @@ func runDetSequence(seed uint64, blocks int, restartEvery int, chainID string) (
 			case 4: // oracle price tx by a genesis validator
 				vi := rng.Intn(len(c.ConsPrivs))
 				priv := c.ConsPrivs[vi]
-				feeder := uint64(1 + rng.Intn(len(c.AssetIDs)))
+				feeder := uint64(1 + rng.Intn(len(detFeederStarts)))
 				h := uint64(c.Header.Height)
-				based := (h-1)/10*10 + 1
-				if based > h {
-					based -= 10
-				}
-				if based != lastBased {
-					oracleNonce = map[string]int32{}
-					lastBased = based
+				start := detFeederStarts[feeder-1]
+				based := start
+				if h > start {
+					based = start + (h-1-start)/10*10
 				}
 				key := fmt.Sprintf("%d/%d", vi, feeder)
+				if based != lastBased[key] {
+					oracleNonce[key] = 0
+					lastBased[key] = based
+				}
 				oracleNonce[key]++
 				price := []string{"1", "2", "300", "301", "abc", ""}[rng.Pick(4, 3, 3, 2, 1, 1)]
 				bz, err = oraclePriceTx(c, priv, priceMsg(oracleCreator(priv), feeder, based, oracleNonce[key], price, 0, fmt.Sprint(based), c.Header.Time))
